@@ -152,6 +152,10 @@ fn gen_count(tier: &str, rng: &mut Rng, out: &mut Vec<String>) {
             }
         }
     }
+    // the largest bucket/partition counts at the u8 boundary
+    out.push("c14n 256 65535 65535 3 0,255 0,1,2,255,256,257,32767,65533,65534".to_string());
+    out.push("c14n 257 1000 65535 2 1,256 0,1,2,255,256,257,999,1000,1001,65534".to_string());
+    out.push("c14n 300 65535 65535 1 7,299 0,1,2,299,300,301,65534".to_string());
     // boundary cluster sizes (u8 truncation at 256, ArrayVec capacity 12)
     let big_ns: &[usize] = &[9, 11, 12, 13, 14, 16, 17, 31, 64, 128, 254, 255, 256, 257, 258, 299, 300];
     let per_n = if thorough { 60 } else { 9 };
@@ -166,7 +170,15 @@ fn gen_count(tier: &str, rng: &mut Rng, out: &mut Vec<String>) {
             let r2 = rng.range(1, 3000);
             let mut p = *rng.pick(&[n as u64, b, b + 1, 2 * b + 3, 1024, 65535, r2]);
             p = p.clamp(1, 65535);
-            if p > 5000 { bigp += 1; if bigp > (if thorough { 4 } else { 1 }) { p = 1 + p % 1500; } }
+            let mut rf = rf;
+            let mut b = b;
+            // cost control (debug build of the real code walks P x rf, the list-based model P x rf x N):
+            // large P only a few times per cluster size and with a small rf; B = 65535 not together with a huge rf
+            if p > 2048 {
+                bigp += 1;
+                if !thorough || bigp > 2 { p = 1 + p % 2048; } else { rf = 1 + rf % 3; }
+            }
+            if b > 4096 && rf > 12 { b = 1 + b % 4096; }
             let a = rng.below(n as u64);
             let nodes = [a, (a + 1) % n as u64, (a + rf.min(n as u64)) % n as u64];
             let mut nodes = nodes.to_vec(); nodes.sort(); nodes.dedup();
